@@ -316,6 +316,12 @@ def c09(chk):
                        "(+ the last send) - see DESIGN.md"]
     chk.add_mc(tlc_mc("MC_Conn.tla", "MC_Conn_quick.cfg" if quick(chk) else "MC_Conn_thorough.cfg",
                       workers=8 if quick(chk) else 14, timeout=300 if quick(chk) else 1800))
+    # the environment assumption behind the deadline rules (QUIC's idle timer, RFC 9000 10.1) as a model of
+    # its own: the bounds the trace specification uses follow from it; that a survivor can outlive
+    # cut + idle when it sent nothing after the cut but loss preceded its last receipt is reachable
+    chk.add_mc(tlc_mc("QuicIdle.tla", "MC_QuicIdle.cfg", workers=2, timeout=300))
+    chk.add_mc(tlc_mc("QuicIdle.tla", "MC_QuicIdle_ka.cfg", workers=2, timeout=300))
+    spec_mutant(chk, "quic_idle_survivor_can_outlive_cut_plus_idle", "QuicIdle.tla", "MC_QuicIdle_long.cfg", [], workers=2)
     # liveness under weak fairness (timeouts, disconnects and dials stay up to the environment): views become
     # mutual for ever, no handler outlives its listing, the event streams fall silent
     chk.add_mc(tlc_mc("MC_Conn.tla", "MC_Conn_live.cfg", workers=4, timeout=600))
